@@ -16,7 +16,7 @@ TRUSTED = ["encoding/gob (hypothesis gobDec (gobEnc v) = v; exercised by the rou
            "strconv.ParseFloat/FormatFloat for CHANGETYPE string<->double (compared, not proved)"]
 RULE = ("per function, `SELECT f(args) AS v FROM dual` with arguments of every JSON kind, arrays (empty, nested, with NULLs), "
         "indices -2..len+1, unknown bases/algorithms/type names, arities 0..n+1, against the Lean model; DECODE(ENCODE(v,b),b)=v and "
-        "HASH purity/length on the implementation; ENCODE's three texts against the Lean codecs on the same gob bytes; "
+        "HASH purity/length on the implementation, also with one call per row overlapping in time (ASYNC) against the digest oracle; ENCODE's three texts against the Lean codecs on the same gob bytes; "
         "non-trivial = an argument outside the friendly case (NULL, empty, nested, boundary index, unknown name, wrong arity)")
 
 DOC = {"arr": [1, "two", None, [3, 4], {"k": 5}], "emp0": [], "nested": [[1, 2], [], [3, [4]]], "n": 3, "neg": -2, "f": 2.5,
@@ -152,6 +152,43 @@ def codec_checks(chk, rnd, tier):
             chk.add_violation("codec-model-vs-impl", {"value": v, "impl": row, "model": l})
             return
         chk.count("codec-agree")
+    # a pure function of its arguments — also when many calls overlap in time: the same HASH / ENCODE over many rows, called
+    # synchronously and under ASYNC / SPINASYNC-free strategies (one goroutine per row), must give row for row the same texts
+    rows = [{"k": i, "s": "".join(rnd.choice("abcdefXYZ 0189") for _ in range(rnd.choice([3, 40, 700, 5000])))} for i in range(48)]
+    creqs, cmeta = [], []
+    for alg in ("sha1", "sha256", "sha512", "md5"):
+        for rep in range(2 if tier == "quick" else 8):
+            creqs.append({"op": "query", "doc": {"t": rows}, "sql": "SELECT k, HASH(s,'%s') AS h, ENCODE(s,'hex') AS e FROM t" % alg})
+            creqs.append({"op": "query", "doc": {"t": rows}, "sql": "SELECT k, ASYNC.HASH(s,'%s') AS h, ASYNC.ENCODE(s,'hex') AS e FROM t" % alg})
+            cmeta.append(alg)
+    couts = run_go(creqs)
+    for j, alg in enumerate(cmeta):
+        a, b = couts[2 * j], couts[2 * j + 1]
+        chk.count("overlapping-calls:" + str(b.get("r")))
+        if a.get("r") != "ok" or b.get("r") != "ok" or b.get("nonPlain"):
+            chk.add_violation("hash-under-overlapping-calls", {"alg": alg, "sync": a.get("r"), "async": b.get("r"), "msg": b.get("msg"),
+                                                               "sql": creqs[2 * j + 1]["sql"], "doc": {"t": rows}})
+            return
+        ra = {r["k"]: r for r in dec_val(a["v"])}
+        rb = {r["k"]: r for r in dec_val(b["v"])}
+        for k in ra:
+            exp = hashlib.new(alg, bytes.fromhex(ra[k]["e"])).hexdigest()
+            if ra[k]["h"] != exp or rb.get(k, {}).get("h") != exp or rb.get(k, {}).get("e") != ra[k]["e"]:
+                chk.add_violation("hash-not-a-function-of-its-value", {
+                    "alg": alg, "row": k, "expected": exp, "sync": ra[k]["h"], "overlapping": rb.get(k, {}).get("h"),
+                    "sql": creqs[2 * j + 1]["sql"], "doc": {"t": rows}})
+                return
+    # … and when whole queries overlap: 8 goroutines run the HASH / ENCODE queries over the same rows again and again, each
+    # result compared with the query's result when run alone
+    cq = [{"doc": 0, "sql": "SELECT k, HASH(s,'%s') AS h FROM t" % alg} for alg in ("sha1", "sha256", "sha512", "md5")] + \
+         [{"doc": 0, "sql": "SELECT k, ENCODE(s,'%s') AS e FROM t" % b} for b in ("hex", "base32", "base64")]
+    co = run_go([{"op": "conc", "args": {"docs": [enc_val({"t": rows})], "queries": cq, "selectors": [], "goroutines": 8,
+                                         "repeat": 6 if tier == "quick" else 40}}])[0]
+    chk.count("overlapping-queries:" + str(co.get("r")), co.get("executions", 0) if co.get("r") == "ok" else 1)
+    if co.get("r") != "ok" or co.get("mismatches"):
+        chk.add_violation("hash-under-overlapping-queries", {"queries": [q["sql"] for q in cq], "doc": {"t": rows}, "goroutines": 8,
+                                                             "first": co.get("first"), "impl": {k: co.get(k) for k in ("r", "mismatches", "msg")}})
+        return
     # unknown base / algorithm are errors
     bad = run_go([{"op": "query", "doc": {}, "sql": "SELECT ENCODE('x','base99') AS v FROM dual"},
                   {"op": "query", "doc": {}, "sql": "SELECT DECODE('00','base99') AS v FROM dual"},
